@@ -78,7 +78,11 @@ func (c *RowContext) Thread() *Thread {
 // Constant ---------------------------------------------------------
 
 func (a *Constant) CanEvalRaw([]string) bool {
-	a.Packed = Pack(a.Val.(Packable))
+	p, ok := a.Val.(Packable)
+	if !ok {
+		return false // e.g. a class or function, evaluate unpacked
+	}
+	a.Packed = Pack(p)
 	return true
 }
 
